@@ -209,7 +209,9 @@ def run_pairwise(prog, tier, repo):
             sname = adt.name.split('::')[-1]
             for k in ident:
                 fname = fields[k].name
-                key = f'{b.id}:{sname}.{fname}:pair#{n}'
+                base = f'{b.id}:{sname}.{fname}:pair'
+                dup = sum(1 for i in res.instances if i.key == base or i.key.startswith(base + '#'))
+                key = base if dup == 0 else f'{base}#{dup + 1}'
                 ina = k in reads.get((ra, sa), set())
                 inb = k in reads.get((rb, sa), set())
                 if ina and inb:
